@@ -233,7 +233,7 @@ class TPCNRunner(BaseMCMCRunner):
         # position relative to the mode mean and not only on the displacement.
         # Proposals that leave the unit cube are therefore rejected for every
         # coordinate, whatever its boundary type (the symmetric RWM proposal
-        # keeps wrapping and folding, which is exact there).
+        # keeps wrapping periodic coordinates, which is exact there).
         self.periodic = None
         self.reflective = None
 
@@ -307,6 +307,14 @@ class RWMRunner(BaseMCMCRunner):
     def __init__(self, *args, **kwargs):
         super().__init__(*args, **kwargs)
         self.chol_covs = self.mode_stats.chol_covariances
+        # Folding a proposal at a reflective wall keeps the random-walk proposal
+        # symmetric only if the scale matrix does not correlate that coordinate
+        # with the others: the mirror image of a correlated Gaussian step is not
+        # a step of the same law, and detailed balance is lost. Proposals that
+        # cross a reflective wall are therefore rejected like any other
+        # out-of-cube proposal (wrapping a periodic coordinate is a translation
+        # and stays exact for every scale matrix).
+        self.reflective = None
 
     def _initialize_sigmas(self) -> np.ndarray:
         return np.ones(self.n_clusters) * self.sigma_0
